@@ -58,6 +58,30 @@ def dec(x):
     raise ValueError(t)
 
 
+def enc(v):
+    """what a field holds, in the value encoding of the harness (compared inside Coq); 'other' = not a number / None /
+    sequence"""
+    if v is None:
+        return {"t": "none"}
+    if isinstance(v, (bool, np.bool_)):
+        return {"t": "other"}
+    if isinstance(v, (int, np.integer)):
+        return {"t": "int", "v": int(v)}
+    if isinstance(v, (float, np.floating)):
+        f = float(v)
+        if math.isnan(f):
+            return {"t": "nan"}
+        if math.isinf(f):
+            return {"t": "inf", "pos": f > 0}
+        return {"t": "float", "v": f.hex()}
+    if isinstance(v, (list, tuple, np.ndarray)):
+        try:
+            return {"t": "seq", "n": len(v)}
+        except TypeError:
+            return {"t": "other"}
+    return {"t": "other"}
+
+
 def same_value(a, b) -> bool:
     if isinstance(b, (float, np.floating)) and math.isnan(b):
         return isinstance(a, (float, np.floating)) and math.isnan(a)
@@ -280,12 +304,12 @@ def handle_guard(p):
                               with_dask=bool(p.get("dask")))
             res = pyxel.run_mode(mode=obs, detector=detector, pipeline=py_pipeline(empty_pipeline()))
             tree_fingerprint(res)       # forces the computation of every point
-            stored = x
+            return {"accepted": True, "stored": True}      # the swept detector is a copy inside the run: not read back
         else:
             raise ValueError(path)
     except Exception as ex:  # noqa: BLE001
         return classify_exc(ex)
-    return {"accepted": True, "stored": bool(same_value(stored, x))}
+    return {"accepted": True, "stored": bool(same_value(stored, x)), "stored_v": enc(stored)}
 
 
 # ------------------------------------------------------------------------------------------ keys
@@ -295,8 +319,14 @@ def handle_keys(p):
     import pyxel
 
     doc = {}
+    states = p.get("states") or {}     # key -> "filled" (default) | "null" (`key:`) | "empty" (`key: {}`)
     for k in p["present"]:
-        if k == "pipeline":
+        st = states.get(k, "filled")
+        if st == "null":
+            doc[k] = None
+        elif st == "empty":
+            doc[k] = {}
+        elif k == "pipeline":
             doc[k] = empty_pipeline()
         elif k in ("exposure", "observation", "calibration"):
             doc[k] = minimal_mode(k)
@@ -305,7 +335,15 @@ def handle_keys(p):
         else:
             doc[k] = {"anything": 1}
     try:
-        cfg = pyxel.load(dump_yaml(doc, "keys"))
+        path = dump_yaml(doc, "keys")
+        text = path.read_text()
+        for k in p["present"]:
+            if states.get(k) == "null":        # written the way a section with all its lines commented out looks
+                text = text.replace(f"\n{k}: null\n", f"\n{k}:\n")
+                if text.startswith(f"{k}: null\n"):
+                    text = f"{k}:\n" + text[len(f"{k}: null\n"):]
+        path.write_text(text)
+        cfg = pyxel.load(path)
     except Exception as ex:  # noqa: BLE001
         return {"loaded": False, "exc": type(ex).__name__, "msg": str(ex)[:200]}
     used = [k for k in ("exposure", "observation", "calibration") if getattr(cfg, k, None) is not None]
